@@ -734,3 +734,53 @@ def r_subgrid_kept(cx):
                   "Ntv2Grid::new can go on to the next record without the decoded sub-grid being %s: records are "
                   "dropped depending on their order in the file" % what, cx.where(f.term(dec[0])["span"]))
     cx.count("R-SUBGRID-KEPT", "record_loops", n)
+
+
+# ---------------------------------------------------------------------------------------------------------------------
+# R-NTV2-FIELDS (C15): each field of the decoded sub-grid header comes from its own record
+
+NTV2_FIELD_RECORD = {"name": "SUB_NAME", "parent": "PARENT", "nlat": "N_LAT", "slat": "S_LAT", "wlon": "W_LONG",
+                     "elon": "E_LONG", "dlat": "LAT_INC", "dlon": "LONG_INC", "num_nodes": "GS_COUNT"}
+
+
+@rule("R-NTV2-FIELDS", ["C15", "C08"])
+def r_ntv2_fields(cx):
+    """SubGridHeader::new fills every field of the header it returns from the value part of the record of that name
+    (record k of the sub-grid header sits at offset + 16 k, its value at + 8; order of records from the NTv2
+    developer's guide, spec/ntv2_records.json): `dlon` from LONG_INC, not from LAT_INC, and so on."""
+    recs = spec("ntv2_records.json")["subgrid_header"]
+    name = "grid::ntv2::subgrid::SubGridHeader::new"
+    f = cx.f.fn(name)
+    adt = cx.f.lib["adts"]["grid::ntv2::subgrid::SubGridHeader"]
+    fields = [x["name"] for x in adt["variants"][0]["fields"]]
+    n = 0
+    for bb, i, s in f.all_stmts():
+        if s["k"] != "assign" or s["rv"]["k"] != "agg" or not str(s["rv"].get("adt", "")).endswith("SubGridHeader"):
+            continue
+        v = f.rvalue(s["rv"], (bb, i))
+        for k, fname in enumerate(fields):
+            rec = NTV2_FIELD_RECORD.get(fname)
+            if rec is None or rec not in recs or k >= len(v[2]):
+                continue
+            want = 16 * recs.index(rec) + 8
+            offs = set()
+
+            def vis(x):
+                if x[0] == "call" and isinstance(x[1], str) and "NTv2Parser::get_" in x[1] and len(x[2]) > 1:
+                    o = x[2][1]
+                    if o[0] == "bin" and o[1] in ("Add", "AddWithOverflow"):
+                        for side in (o[2], o[3]):
+                            if side[0] == "const" and isinstance(side[2], int):
+                                offs.add(side[2])
+                    else:
+                        offs.add("?")
+                    return False
+                return True
+            mir.walk(v[2][k], vis)
+            n += 1
+            ok = offs == {want}
+            cx.ob("R-NTV2-FIELDS", "SubGridHeader/%s" % fname, ok,
+                  "header field `%s` is decoded from the record %s (offset + %d)" % (fname, rec, want) if ok else
+                  "header field `%s` must be decoded from the record %s (offset + %d) but is computed from the value(s) "
+                  "read at offset + %s" % (fname, rec, want, sorted(map(str, offs)) or "nothing"), cx.where(s["span"]))
+    cx.count("R-NTV2-FIELDS", "fields", n)
